@@ -157,3 +157,27 @@ Example informational_status_today :
   spec_view false [] [AWriteHeader 103; AWriteHeader 404; AWrite [200]] =
     ([(103, [])], Some (404, []), [200]).
 Proof. vm_compute. split; reflexivity. Qed.
+
+(* (6) self-test mutation E1: WithTimeout keeps the larger of the timeouts given for a route
+   group ("the most generous") instead of the last one *)
+Definition apply_opt_max (f : froutes) (o : ropt) : froutes :=
+  match o with
+  | OptTimeout t => mkFR (if fr_timeout f <? t then t else fr_timeout f) (fr_sse f)
+  | OptSSE => mkFR 0 true
+  end.
+
+Theorem keep_larger_route_timeout_refuted :
+  exists opts t, fr_timeout (fold_left apply_opt_max (opts ++ [OptTimeout t]) (mkFR 0 false)) <> t.
+Proof. exists [OptTimeout 3600], 1800. vm_compute. discriminate. Qed.
+
+(* (7) self-test mutation E2: every route gets ng.timeout (the max over the server) instead
+   of its own checked timeout: a route with a short own timeout runs under a later deadline
+   than now + its timeout *)
+Theorem engine_max_timeout_refuted :
+  exists conf_ms groups g now,
+    In g groups /\ 0 < eng_route_dur true conf_ms g /\
+    now + eng_route_dur true conf_ms g < with_timeout None now (eng_timeout conf_ms groups).
+Proof.
+  exists 3000, [route_conf [OptTimeout 20000000]; route_conf []], (route_conf [OptTimeout 20000000]), 0.
+  vm_compute. repeat split; auto.
+Qed.
